@@ -226,7 +226,41 @@ def correspondence(ctx):
             ok = (not isinstance(g2, core.ImplError)) and all(core.enc(getattr(g1, a)) == core.enc(getattr(g2, a)) for a in ("weights", "means", "variances"))
             if not ok:
                 bad.append({"op": "h5_legacy:fixture", "input": leg, "impl": repr(g2)})
+    ctx.count("legacy-written-12-gaussians")
+    ctx.case(["legacy12", ctx.seed], nontrivial=True)
+    f12 = legacy_oracle(ctx.seed + 77)
+    if f12:
+        bad.append({"op": "h5_legacy:fixture", "input": {"file": "legacy layout, 12 Gaussians", "seed": ctx.seed + 77}, "impl": f12["what"]})
     return bad
+
+
+def legacy_oracle(seed, n_g=12, n_f=3):
+    """a legacy-layout file written here (one group per Gaussian; with 12 of them "m_gaussians10" sorts before "m_gaussians2"):
+    the legacy reader must give the machine that the current format gives for the same parameters"""
+    import h5py
+    from bob.learn.em import GMMMachine
+
+    r_ = np.random.default_rng(seed)
+    w_, m_, v_, _ = gen.gmm_params(r_, n_g, n_f, scales=np.ones(n_f))
+    thr_ = np.full((n_g, n_f), 1e-3)
+    lp = tmp("legacy12.h5")
+    with h5py.File(lp, "w") as f:
+        f["m_n_gaussians"] = np.array([n_g], dtype=np.int64)
+        f["m_n_inputs"] = np.array([n_f], dtype=np.int64)
+        f["m_weights"] = w_
+        for i in range(n_g):
+            grp = f.create_group(f"m_gaussians{i}")
+            grp["m_mean"], grp["m_variance"], grp["m_variance_thresholds"] = m_[i], v_[i], thr_[i]
+            grp["m_n_inputs"] = np.array([n_f], dtype=np.int64)
+            grp["g_norm"] = np.array([0.0])
+    gl = core.impl(lambda: GMMMachine.from_hdf5(lp))
+    ref = gen.mk_gmm(w_, m_, v_, thr=thr_)
+    if isinstance(gl, core.ImplError):
+        return {"sig": "legacy-load-raises", "what": repr(gl)}
+    if not all(core.enc(getattr(gl, a)) == core.enc(getattr(ref, a)) for a in ("weights", "means", "variances")) \
+            or not np.array_equal(np.asarray(gl.log_likelihood(m_)), np.asarray(ref.log_likelihood(m_))):
+        return {"sig": "legacy-file-loads-to-another-model", "what": f"{n_g} Gaussians in the legacy layout: means {np.asarray(gl.means).tolist()} vs stored {m_.tolist()}"}
+    return None
 
 
 def oracle(sc):
@@ -302,11 +336,18 @@ def search(ctx):
             seen.add(f["sig"])
             f["input"] = sc
             fails.append(f)
+    f = legacy_oracle(ctx.seed + 78)
+    ctx.count("search:legacy-12")
+    if f:
+        f["input"] = {"legacy_seed": ctx.seed + 78}
+        fails.append(f)
     return fails
 
 
 def replay(d):
     sc = d["input"]
+    if "legacy_seed" in sc:
+        return legacy_oracle(sc["legacy_seed"])
     for k in ("w", "m", "v"):
         sc[k] = np.asarray(sc[k], dtype=float)
     if sc["thr_kind"] != "scalar":
